@@ -62,6 +62,15 @@ def gen_pairs(tier, seed):
                 lines.append(f"ds dimadd ${h} ${H[l]} $11"); h += 1
                 for l2 in ys[:1]:
                     lines.append(f"ds dimadd2 ${h} ${H[l]} ${H[l2]}"); h += 1
+            if any(l in "ab" for l in ys):
+                # the right operand holds *another* dimension under a letter the left one may have as well
+                # (other name, other items): what both have is taken from the left
+                lines += [f"dim ${H['A']} {ALT['A']}", f"dim ${H['B']} {ALT['B']}"]
+                lines.append(dset(12, [l.upper() if l in "ab" else l for l in ys]))
+                for op in ("union", "inter", "diff", "xor", "add"):
+                    lines.append(f"ds {op} ${h} $10 $12"); h += 1
+                    lines.append(f"ds {op} ${h} $12 $10"); h += 1
+                stats["ops"] += 10
             lines.append("dumpall")
             stats["cases"] += 1
             stats["ops"] += 6
@@ -125,7 +134,7 @@ IN_OPS = ["expand!", "append!", "prepend!", "insert!", "drop!", "replace!"]
 
 def gen_histories(tier, seed):
     r = rng(seed, "dims/histories")
-    ncases, maxlen = (300, 8) if tier == "quick" else (3000, 30)
+    ncases, maxlen = (600, 8) if tier == "quick" else (3000, 30)
     keys = "abcdeAB"
     lines = []
     stats = {"cases": 0, "ops": 0, "inplace": 0, "outofplace": 0, "arrays": 0}
